@@ -162,6 +162,7 @@ fn table_coherent<E: EndianParse, P: ParseAt + Show>(e: E, c: Class, data: &[u8]
     }
     // the Iterator trait's provided methods agree with plain `next()` (an override of nth / count / last / size_hint
     // must be the same function): resumed `nth`, `skip`, `step_by`, `count`, `last`, `size_hint`
+    iter_methods_check("table iterator", || t.iter(), |v| v.show())?;
     let n = items.len();
     for a in 0..n.min(4) + 1 {
         for k in 0..n.min(4) + 2 {
@@ -197,7 +198,6 @@ fn table_coherent<E: EndianParse, P: ParseAt + Show>(e: E, c: Class, data: &[u8]
     if lo > n || hi.map(|h| h < n).unwrap_or(false) {
         return Err(format!("size_hint() = ({}, {:?}) excludes the {} items next() yields", lo, hi, n));
     }
-    iter_methods_check("table iterator", || t.iter(), |v| v.show())?;
     // fused
     let mut it = t.iter();
     while it.next().is_some() {}
@@ -433,6 +433,23 @@ pub fn oracle_line(line: &str, ann: &str) -> V {
 /// iterator **and after part of it was consumed**.  `mk` builds a fresh iterator, `show` renders an item.
 pub fn iter_methods_check<I: Iterator, F: Fn() -> I, S: Fn(&I::Item) -> String>(what: &str, mk: F, show: S) -> V {
     let cap = 4096usize;
+    // no sequence of provided-method calls panics — in particular not after an `nth` that runs past the end
+    {
+        let n0 = { let mut it = mk(); let mut c = 0usize; while it.next().is_some() { c += 1; if c > cap { break; } } c };
+        for k in [0usize, 1, n0, n0 + 1, n0 + 7, usize::MAX / 2, usize::MAX] {
+            let r = std::panic::catch_unwind(std::panic::AssertUnwindSafe(|| {
+                let mut it = mk();
+                let _ = it.nth(k);
+                let _ = it.size_hint();
+                let _ = it.nth(0);
+                let _ = it.size_hint();
+                let _ = it.count();
+            }));
+            if r.is_err() {
+                return Err(format!("C01: {}: nth({}) followed by size_hint()/nth(0)/count() panicked", what, k));
+            }
+        }
+    }
     let items: Vec<String> = { let mut it = mk(); let mut v = vec![]; while let Some(x) = it.next() { v.push(show(&x)); if v.len() > cap { break; } } v };
     if items.len() > cap { return Ok(()); }
     let n = items.len();
@@ -443,7 +460,8 @@ pub fn iter_methods_check<I: Iterator, F: Fn() -> I, S: Fn(&I::Item) -> String>(
             let got = it.nth(k).map(|v| show(&v));
             let want = items.get(a + k).cloned();
             if got != want {
-                return Err(format!("{}: after {} next() calls, nth({}) is not item {} of the iteration", what, a, k, a + k));
+                let more = if got.is_some() && want.is_none() { " || FAIL C16: nth() yields an item where plain iteration has ended" } else { "" };
+                return Err(format!("{}: after {} next() calls, nth({}) is not item {} of the iteration{}", what, a, k, a + k, more));
             }
             let after = it.next().map(|v| show(&v));
             if want.is_some() && a + k + 1 < n && after != items.get(a + k + 1).cloned() {
@@ -467,7 +485,10 @@ pub fn iter_methods_check<I: Iterator, F: Fn() -> I, S: Fn(&I::Item) -> String>(
         let mut it = mk(); for _ in 0..a { it.next(); }
         let sk: Vec<String> = it.skip(1).step_by(2).take(n + 2).map(|v| show(&v)).collect();
         let want: Vec<String> = items.iter().skip(a.min(n) + 1).step_by(2).cloned().collect();
-        if sk != want { return Err(format!("{}: after {} next() calls, skip(1).step_by(2) differs from the same walk over the collected items", what, a)); }
+        if sk != want {
+            let more = if sk.len() > want.len() { " || FAIL C16: the walk yields more items than plain iteration has (it does not end where the iterator ends)" } else { "" };
+            return Err(format!("{}: after {} next() calls, skip(1).step_by(2) differs from the same walk over the collected items{}", what, a, more));
+        }
         // (an iterator need not be fused — NoteIterator is not — so nothing here polls again after the first None)
         if a >= n { continue; }
         let mut it = mk(); for _ in 0..a { it.next(); }
